@@ -315,7 +315,9 @@ ck.finish({
             "'~' operands are default-constructed views (data() == nullptr). Complete enumeration: " + enum_desc +
             "; then the corpus of defect witnesses, default-constructed views against all operands of length <= 2, a sweep over all 256 byte "
             "values, and VERIF_SEED-dependent random strings of length 5..12 and 13..40 (needles cut out of the haystack, aliasing ranges). "
-            "Every block also uses positions/counts 2^32, 2^32+1 and npos-1. "
+            "Every block also uses positions/counts 2^32, 2^32+1 and npos-1; every count argument (substr, copy, compare(pos1,n1,..) for needles "
+            "of length <= 1, compare(pos1,n1,x,pos2,n2)) runs over 0..len+2 and npos-d for d = 0..len+3 (pos + n wraps for d <= pos); "
+            "(ptr,pos,n) overloads over every n <= |needle|; returned / modified views are compared by size(), data() offset and bytes. "
             "distinct_nontrivial = number of distinct blocks (kind, hay, needle) with non-empty operands in which at least one find/rfind "
             "with a non-empty needle found an occurrence, i.e. the needle (or a probed character) really occurs in the haystack "
             "(counted by a probe in the model driver).",
